@@ -1,13 +1,13 @@
 CONSTANTS
-  HiCard = 2
+  HiCard = 1
   LoCard = 4
   MaxZ = 2
-  R = 2
-  MaxInst = 0
+  R = 1
+  MaxInst = 1
   NZ = 2
-  MaxReq = 3
+  MaxReq = 2
   NForeign = 1
-  CJ = FALSE
+  CJ = TRUE
 INIT Init
 NEXT Next
 VIEW view
